@@ -20,20 +20,20 @@ def kind_classes(p):
 def check(run):
     p = run.prog
     kc = kind_classes(p)
-    keys(run, p, kc)
-    datepath(run, p, kc)
-    datelang(run, p)
+    run.attempt(keys, run, p, kc)
+    run.attempt(datepath, run, p, kc)
+    run.attempt(datelang, run, p)
     run.rules['C09-DATELANG'] = run.rules.pop('C01-DATELANG')
     for o in run.obs:
         if o.rule == 'C01-DATELANG':
             o.rule = 'C09-DATELANG'
     run.floors = [(('C09-DATELANG' if r == 'C01-DATELANG' else r), c, m) for r, c, m in run.floors]
-    datetype(run, p)
-    nullg(run, p, kc)
-    unknown(run, p)
-    entry(run, p)
-    preset(run, p)
-    sameprep(run, p)
+    run.attempt(datetype, run, p)
+    run.attempt(nullg, run, p, kc)
+    run.attempt(unknown, run, p)
+    run.attempt(entry, run, p)
+    run.attempt(preset, run, p)
+    run.attempt(sameprep, run, p)
     from .common import nocache_rule
     nocache_rule(run, 'C09-NOCACHE', p, ['tdda.constraints.base'],
                  'a .tdda file is read each time it is loaded: no memoising decorator, no class-level container and no module-level '
@@ -44,9 +44,9 @@ def check(run):
                       'over a dictionary\'s items carries a plain local from the handling of one key to the handling of another')
     run.floor('C09-KEYORDER', n, 2)
     from .. import ief, triage
-    ief.run_ief(run, 'C09', [p.fn('DatasetConstraints.to_json'), p.fn('DatasetConstraints.load'), p.fn('DatasetConstraints.initialize_from_dict')], triage=triage.IEF)
-    run.floor('C09-IEF', run.units['ief_functions_checked'], 10)
-    strip(run, p)
+    run.attempt(ief.run_ief, run, 'C09', [p.fn('DatasetConstraints.to_json'), p.fn('DatasetConstraints.load'), p.fn('DatasetConstraints.initialize_from_dict')], triage=triage.IEF)
+    run.floor('C09-IEF', run.units.get('ief_functions_checked', 0), 10)
+    run.attempt(strip, run, p)
     run.trust('json.dumps / json.loads round-trip str, int, bool, None and float exactly (CPython)')
 
 
